@@ -40,6 +40,10 @@ VARS = {
     'M2': ('ML_BSSN', 'ml_bssn-ml_mom', 'Momentumy'),
     'M3': ('ML_BSSN', 'ml_bssn-ml_mom', 'Momentumz'),
     'tau': ('COSMOLAPSE', 'cosmolapse-propertime', 'tau'),
+    # (appended last: the truth codes of the variables above stay what they were)
+    'dtbetax': ('ADMBASE', 'admbase-dtshift', 'dtbetax'),
+    'dtbetay': ('ADMBASE', 'admbase-dtshift', 'dtbetay'),
+    'dtbetaz': ('ADMBASE', 'admbase-dtshift', 'dtbetaz'),
 }
 CODE = {v: i + 1 for i, v in enumerate(VARS)}
 GROUP_MEMBERS = {}
@@ -49,6 +53,7 @@ TENSORS = {'gammadown3': ['gxx', 'gxy', 'gxz', 'gyy', 'gyz', 'gzz'],
            'Kdown3': ['kxx', 'kxy', 'kxz', 'kyy', 'kyz', 'kzz'],
            'betaup3': ['betax', 'betay', 'betaz'],
            'velup3': ['velx', 'vely', 'velz'],
+           'dtbetaup3': ['dtbetax', 'dtbetay', 'dtbetaz'],
            'Momentumup3': ['Momentumx', 'Momentumy', 'Momentumz']}
 SENTINEL = -777.25
 
